@@ -18,18 +18,21 @@ import (
 
 // oneCase is everything the stages need to know about one blob.
 type oneCase struct {
-	Desc      string
-	Class     string // "builder" | "hand"
-	Features  []string
-	Blob      []byte
-	Decomp    []metadata.Decompressor
-	Truth     *truth
-	Facts     *facts
-	Replay    map[string]any
-	BuildErr  error
-	built     *blob.Built
-	tocParsed bool
-	Light     bool // zstd: probe fewer ranges (decoder set-up dominates the run time)
+	Desc     string
+	Class    string // "builder" | "hand"
+	Features []string
+	Blob     []byte
+	Decomp   []metadata.Decompressor
+	Truth    *truth
+	Facts    *facts
+	Replay   map[string]any
+	BuildErr error
+	built    *blob.Built
+	// set by diffCase when the stores of this case come from fsopts.ConfigFsOpts
+	memStore, dbStore metadata.Store
+	via               string
+	tocParsed         bool
+	Light             bool // zstd: probe fewer ranges (decoder set-up dominates the run time)
 }
 
 var errSkipped = fmt.Errorf("skipped in this stage")
